@@ -138,3 +138,43 @@ def check(ci: int) -> bool:
             elif SCHEMA != 'shared' and v is not None:
                 LAST_DIFF = ('referential read of unlinked instance', n, v); return False
     return True
+
+
+# ---- two associations into the SAME referred class through DIFFERENT identifiers, with identically
+# named referential attributes on the referring classes (the loader caches one index per referred
+# class and key set)
+TWO = [(a1, c1, a2, c2, b, c, o) for a1 in (1, 2) for c1 in (1, 2) for a2 in (1, 2) for c2 in (1, 2)
+       for b in (0, 1, 2) for c in (0, 1, 2) for o in (0, 1)]
+NTWO = len(TWO)
+
+
+def check_two_ids(ci: int) -> bool:
+    """
+    pre: 0 <= ci < NTWO
+    post: POST(_)
+    """
+    global LAST_DIFF, LOADER
+    a1, c1, a2, c2, bref, cref, order = TWO[cs(ci, 0, NTWO - 1)]
+    with notrace():
+        rops = ['CREATE ROP REF_ID R1 FROM MC B (Ref) TO 1C A (Id);\n', 'CREATE ROP REF_ID R2 FROM MC C (Ref) TO 1C A (Code);\n']
+        text = ('CREATE TABLE A (Id UNIQUE_ID, Code UNIQUE_ID);\nCREATE TABLE B (Ref UNIQUE_ID);\nCREATE TABLE C (Ref UNIQUE_ID);\n'
+                + ''.join(rops[::-1] if order else rops) +
+                'INSERT INTO A VALUES (%d, %d);\nINSERT INTO A VALUES (%d, %d);\nINSERT INTO B VALUES (%d);\nINSERT INTO C VALUES (%d);\n'
+                % (a1, c1, a2, c2, bref, cref))
+        if LOADER is None:
+            LOADER = xtuml.ModelLoader()
+        LOADER.statements = []
+        LOADER.input(text)
+    m = LOADER.build_metamodel()
+    case('two_ids', a1, c1, a2, c2, bref, cref, order)
+    with notrace():
+        got = link_sig(m)
+        exp = set()
+        for ai, (i, c) in enumerate(((a1, c1), (a2, c2))):
+            if bref != 0 and bref == i:
+                exp.add(('R1', '', 'B', 0, 'A', ai)); exp.add(('R1', '', 'A', ai, 'B', 0))
+            if cref != 0 and cref == c:
+                exp.add(('R2', '', 'C', 0, 'A', ai)); exp.add(('R2', '', 'A', ai, 'C', 0))
+    if got != exp:
+        LAST_DIFF = ('links', sorted(got ^ exp), (a1, c1, a2, c2, bref, cref, order)); return False
+    return True
